@@ -217,10 +217,12 @@ def op_to_wire(op):
         return ["$eq", "$" + op[1], "$" + op[2], num_to_wire(op[3]), num_to_wire(op[4])]
     if k == "drop":
         return ["$drop", "$" + op[1]]
-    if k in ("good", "iszero"):
+    if k == "immut":
+        return ["$immut", "$" + op[1], "$" + op[2]]
+    if k in ("good", "iszero", "uniform"):
         return ["$" + k, "$" + op[1]]
-    if k == "samebase":
-        return ["$samebase", "$" + op[1], "$" + op[2]]
+    if k in ("samebase", "same", "compat"):
+        return ["$" + k, "$" + op[1], "$" + op[2]]
     raise ValueError(op)
 
 
